@@ -1,16 +1,57 @@
 (* C09 -- every construction or editing path yields a consistent vertex-edge-cell mesh.  Statements only.
    PARTIAL: clauses (1) and (2) -- a vertex lists a mesh edge [cell] exactly when that edge [cell] exists and ends at [contains] it --
-   are proved for every sequence of the registration operations (object creation, deletion with __del__, replace_vertex).  The
-   composite paths (parsers, generate_mesh, join_two_vertices, Frame) and clauses (3)-(5) are evaluated on the implementation
-   objects by harness/props/c09.py after every step. *)
+   are proved for every sequence of the registration operations (object creation, deletion with __del__, replace_vertex).  For the
+   resampling path (generate_mesh without merges) clauses (3)-(5) are proved on Model/Resample.v, clause (5) under premises that are
+   evaluated on every mesh harness/props/c11.py resamples.  The other composite paths (parsers, join_two_vertices, Frame) are evaluated
+   on the implementation objects by harness/props/c09.py after every step. *)
 From Coq Require Import ZArith List Bool.
-From Forsys Require Import Model.Heap Proofs.HeapProofs.
+From Coq Require Import QArith.
+From Forsys Require Import Model.PyList Model.Interfaces Model.Resample Model.Heap Proofs.HeapProofs Proofs.ShiftProofs Proofs.ResampleProofs Proofs.ResampleConsistency.
 Import ListNotations.
 
 Theorem C09_step_preserves : forall s o, Inv s -> Inv (hstep s o).
 Proof. exact step_inv. Qed.
 Theorem C09_histories_consistent : forall ops : list hop, Inv (hrun ops).
 Proof. exact histories_consistent. Qed.
+
+(* ---- the resampling path (generate_mesh without merges, Model/Resample.v resample_core) *)
+(* the rebuilt mesh edges are stored under 0, 1, 2, ... : each under its own id, no id twice *)
+Theorem C09_resample_edge_ids : forall st narr,
+  map fst (es (resample_core st narr)) = map Z.of_nat (seq 0 (length (es (resample_core st narr)))) /\ NoDup (map fst (es (resample_core st narr))).
+Proof. exact resample_edge_ids. Qed.
+(* every rebuilt mesh edge joins two vertices named by one resampled interface, and both exist afterwards *)
+Theorem C09_resample_edges_reference_vertices : forall st narr i a b,
+  (forall v, In v (concat narr) -> In v (map fst (vs st))) -> In (i, (a, b)) (es (resample_core st narr)) ->
+  (exists e, In e narr /\ In a e /\ In b e) /\ In a (map fst (vs (resample_core st narr))) /\ In b (map fst (vs (resample_core st narr))).
+Proof. exact resample_edges_reference_vertices. Qed.
+(* surviving cells: not empty, no repeated vertex if there was none, every vertex still exists *)
+Theorem C09_resample_cells_consistent : forall st narr cid cyc, In (cid, cyc) (cs (resample_core st narr)) ->
+  exists old, In (cid, old) (cs st) /\ cyc <> [] /\ (NoDup old -> NoDup cyc) /\
+    (forall v, In v cyc -> In v old /\ (In v (map fst (vs st)) -> In v (map fst (vs (resample_core st narr))))).
+Proof. exact resample_cells_consistent. Qed.
+(* consecutive vertices (cyclically) of every resampled cell cycle are joined by a rebuilt mesh edge: given that every junction is named
+   by a resampled interface and that the vertices of an interface named by any resampled interface are its own selection *)
+Theorem C09_resampled_cycle_joined : forall idx junc ne st,
+  let bedges := create_edges_new junc (cs st) in
+  let narr := n_edge_array idx ne bedges in
+  let keep := fun v => memZ v (concat narr) in
+  (forall v, junc v = true -> keep v = true) ->
+  (forall f, In f bedges -> filter keep f = select_iface idx ne f) ->
+  forall cid cyc a b, In (cid, cyc) (cs (resample_core st narr)) -> (forall old, In (cid, old) (cs st) -> existsb junc old = true) ->
+  cyc_adjacent a b cyc -> joined (es (resample_core st narr)) a b.
+Proof. exact resampled_cycle_joined. Qed.
+(* the same with the conditions in executable form (evaluated by the harness on every resampled mesh it generates) *)
+Theorem C09_resample_hyps_cycles_joined : forall idx jl ne st, resample_hyps idx jl ne st = true ->
+  cycles_joined (resample_core st (n_edge_array idx ne (create_edges_new (fun v => memZ v jl) (cs st)))) = true.
+Proof. exact resample_hyps_cycles_joined. Qed.
+
+(* two cells sharing a five-point interface, resampled to two segments per interface: the conditions hold and three vertices go *)
+Example C09_resample_example :
+  let st := mkV (map (fun k => (k, (0, 0)%Q)) [1; 10; 11; 12; 2; 20; 21; 30; 31; 32]) [] [(0, [1; 10; 11; 12; 2; 20; 21]); (1, [2; 12; 11; 10; 1; 30; 31; 32])] in
+  let st' := resample_core st (n_edge_array floor_index 2 (create_edges_new (fun v => memZ v [1; 2]) (cs st))) in
+  resample_hyps floor_index [1; 2] 2 st = true /\ cs st' = [(0, [1; 11; 2; 21]); (1, [2; 11; 1; 31])] /\
+  map snd (es st') = [(1, 11); (11, 2); (2, 21); (21, 1); (1, 31); (31, 2)] /\ cycles_joined st' = true.
+Proof. vm_compute. repeat split; reflexivity. Qed.
 
 Example C09_example :
   let s := hrun [Create 0 [1; 2]; Create 1 [2; 3]; Replace 0 1 4; Delete 1]%Z in
@@ -19,3 +60,8 @@ Proof. vm_compute. reflexivity. Qed.
 
 Print Assumptions C09_step_preserves.
 Print Assumptions C09_histories_consistent.
+Print Assumptions C09_resample_edge_ids.
+Print Assumptions C09_resample_edges_reference_vertices.
+Print Assumptions C09_resample_cells_consistent.
+Print Assumptions C09_resampled_cycle_joined.
+Print Assumptions C09_resample_hyps_cycles_joined.
